@@ -67,6 +67,9 @@ func noDualOwnership(t *testing.T, focus wl.GroupFocus) {
 		if plan.RevokeWork >= 700*time.Millisecond {
 			ev.Class("revoke-callback-outlasts-heartbeats")
 		}
+		if o.LeavesAtLog.Load() > 0 {
+			ev.Class("leave-issued-at-a-client-log-line")
+		}
 		ev.ClassN("ownership-callbacks", int64(len(o.Own)))
 		ev.ClassN("joins", int64(o.Joined))
 		ev.ClassN("leaves", int64(o.Left))
